@@ -1,0 +1,98 @@
+//! In-thread construction of the real `ServerWorker` (only with `--cfg actix_net_verif`).
+//!
+//! A child module of `worker` so that it can build the private `ServerWorker` value exactly as
+//! the thread / arbiter paths of `ServerWorker::start` do, but on the caller's thread, and hand
+//! the future to the simulator instead of spawning it.
+
+use std::{
+    io,
+    task::{Context, Poll, RawWaker, RawWakerVTable, Waker},
+};
+
+use tokio::sync::mpsc::UnboundedReceiver;
+
+use super::{
+    wrap_worker_services, Conn, Counter, ServerWorker, ServerWorkerConfig, Stop, WorkerCounter,
+    WorkerHandleAccept, WorkerHandleServer, WorkerState,
+};
+use crate::{service::InternalServiceFactory, waker_queue::WakerQueue};
+
+fn noop_waker() -> Waker {
+    fn clone(_: *const ()) -> RawWaker {
+        RawWaker::new(std::ptr::null(), &VTABLE)
+    }
+    fn noop(_: *const ()) {}
+    static VTABLE: RawWakerVTable = RawWakerVTable::new(clone, noop, noop, noop);
+    // SAFETY: all vtable functions are no-ops on a null pointer.
+    unsafe { Waker::from_raw(RawWaker::new(std::ptr::null(), &VTABLE)) }
+}
+
+#[allow(clippy::too_many_arguments)]
+pub(crate) fn start_in_thread(
+    idx: usize,
+    factories: Vec<Box<dyn InternalServiceFactory>>,
+    waker_queue: WakerQueue,
+    config: ServerWorkerConfig,
+    conn_rx: UnboundedReceiver<Conn>,
+    stop_rx: UnboundedReceiver<Stop>,
+    counter: Counter,
+    pair: (WorkerHandleAccept, WorkerHandleServer),
+) -> io::Result<(WorkerHandleAccept, WorkerHandleServer)> {
+    crate::verif::point(crate::verif::Point::WorkerStarting(idx));
+
+    // Same initialisation as the real paths: create every service, in factory order; the factory
+    // futures are driven inline (simulated factories complete within a bounded number of polls).
+    let waker = noop_waker();
+    let mut cx = Context::from_waker(&waker);
+    let mut services = Vec::new();
+
+    for (fidx, factory) in factories.iter().enumerate() {
+        let mut fut = factory.create();
+        let mut polls = 0;
+        let res = loop {
+            match fut.as_mut().poll(&mut cx) {
+                Poll::Ready(res) => break res,
+                Poll::Pending => {
+                    polls += 1;
+                    assert!(
+                        polls < 64,
+                        "verif: service factory future did not complete inline"
+                    );
+                }
+            }
+        };
+
+        match res {
+            Ok((token, svc)) => services.push((fidx, token, svc)),
+            Err(_) => {
+                return Err(io::Error::new(
+                    io::ErrorKind::Other,
+                    format!("can not start server service {}", fidx),
+                ));
+            }
+        }
+    }
+
+    let worker_services = wrap_worker_services(services);
+
+    let worker = ServerWorker {
+        conn_rx,
+        stop_rx,
+        services: worker_services.into_boxed_slice(),
+        counter: WorkerCounter::new(idx, waker_queue, counter),
+        factories: factories.into_boxed_slice(),
+        state: WorkerState::default(),
+        shutdown_timeout: config.shutdown_timeout,
+    };
+
+    crate::verif::adopt_worker(idx, Box::pin(worker));
+
+    Ok(pair)
+}
+
+pub(crate) fn counter_raw(handle: &WorkerHandleAccept) -> usize {
+    handle
+        .counter
+        .counter
+        .load(std::sync::atomic::Ordering::SeqCst)
+}
